@@ -1,6 +1,7 @@
 package main
 
 import (
+	"fmt"
 	"math"
 
 	ds "github.com/sealdice/dicescript"
@@ -77,6 +78,21 @@ func optI(r *rng, vals []int64) *ds.IntType {
 }
 
 func init() {
+	// replay of the recorded finding: DC with sides > 10, a non-critical die above 10 after a critical one
+	cmds["c04-dcorder"] = func(args []string) {
+		for sd := uint64(1); sd < 4000; sd++ {
+			src := mkSrc(sd, sd*7+1)
+			res, all, rounds, text := ds.RollDoubleCross(src, 15, 2, 20, 0)
+			// first round [x>=15, 10<y<15] gives y instead of 10
+			var a, b int
+			if n, _ := fmt.Sscanf(text, "出目%d/%d 轮数:%d {<%d>,%d}", new(int), new(int), new(int), &a, &b); n == 5 && b > 10 && b < 15 {
+				emit(map[string]any{"found": true, "text": text, "res": int64(res), "all": int64(all), "rounds": int64(rounds)})
+				return
+			}
+		}
+		emit(map[string]any{"found": false})
+	}
+
 	cmds["c04"] = func(args []string) {
 		fs, seed, n := stdFlags("c04")
 		modes := fs.String("modes", "0", "which modes: 0 | all")
